@@ -361,6 +361,16 @@ def config_flow(ctx: Ctx):
                 # the parameter itself, possibly after documented defaulting / conversion of the same name
                 names = {x.id for x in ast.walk(v) if isinstance(x, ast.Name)}
                 ok = param in names and not (names - {param, 'is_ipython'})
+            elif len(ws) > 1:
+                # one store per case of a defaulting / conversion chain (`if isinstance(p, str): self.f = Conv(p) elif p is None:
+                # self.f = Default() else: self.f = p`): exactly one store on every normal path, every stored value is built from the
+                # parameter alone (or is a parameterless default), and the plain parameter is among them
+                one_each = all(not (g.reachable([g.primary(w)], exc=False, include_starts=False) & {g.primary(o) for o in ws if o is not w}) for w in ws) \
+                    and g.on_all_paths_to_exit(g.entry, [g.primary(w) for w in ws], exc=False)
+                vals_ok = all(not ({x.id for x in ast.walk(w.value) if isinstance(x, ast.Name) and not (isinstance(w.value, ast.Call) and x is w.value.func)}
+                                   - {param, 'is_ipython'}) for w in ws)
+                plain = any(isinstance(w.value, ast.Name) and w.value.id == param for w in ws)
+                ok = one_each and vals_ok and plain
             yield ctx.ob('SUPPORT.CONFIG-FLOW', ok, f, ws[0] if ws else f.node, f'{f.short}: self.{fld} <- {param}',
                          '' if ok else f'{f.short} does not store its `{param}` argument in self.{fld}')
     yield from stores('lab.Lab.__init__', {'continue_on_failure': 'continue_on_failure', 'max_workers': 'max_workers',
